@@ -269,6 +269,21 @@ def _laws(case):
     law("selected(k=n,Falsest)=Union", _same(su("Falsest", n), Un, 1e-9))
     for w in (1, 2.5):
         law("weighted(equal)=Union", _same(_ex("FuzzyWeightedUnion", arrs(), {"Weights": [w] * n}), Un, 1e-9))
+    # the SAME result listed more than once, and a one-input Or / And (whose result may be the input object itself) listed next to its
+    # input: maximum, minimum and mean of equal values are that value; a repeated input counts as often as it is listed
+    A0 = arrs()[0]
+    X1, Y1 = _ex("FuzzyOr", [A0]), _ex("FuzzyAnd", [A0])
+    for nm, lst in (("Or(A,A)", ("FuzzyOr", [A0, A0])), ("And(A,A)", ("FuzzyAnd", [A0, A0])), ("Union(A,A)", ("FuzzyUnion", [A0, A0])),
+                    ("Union(A,A,A)", ("FuzzyUnion", [A0, A0, A0]))) + (
+            (("Union(A,Or(A))", ("FuzzyUnion", [A0, X1[1]])), ("And(A,Or(A))", ("FuzzyAnd", [A0, X1[1]])), ("Or(And(A),A)", ("FuzzyOr", [Y1[1], A0])))
+            if X1[0] == "ok" and Y1[0] == "ok" else ()):
+        law("repeated-input:" + nm.split("(")[0], _same(_ex(lst[0], lst[1]), ("ok", A0), 1e-12), nm + " differs from A")
+    law("repeated-input:WeightedUnion", _same(_ex("FuzzyWeightedUnion", [A0, A0], {"Weights": [1, 3]}), ("ok", A0), 1e-12), "WeightedUnion(A,A) differs from A")
+    if n >= 2:
+        B0 = arrs()[1]
+        law("repeated-input:Or(A,B,A)", _same(_ex("FuzzyOr", [A0, B0, A0]), _ex("FuzzyOr", [A0, B0]), 0.0))
+        law("repeated-input:Union(A,A,B)", _same(_ex("FuzzyUnion", [A0, A0, B0]), _ex("FuzzyWeightedUnion", [A0, B0], {"Weights": [2, 1]}), 1e-12))
+        law("repeated-input:XOr(A,B,A)", _same(_ex("FuzzyXOr", [A0, B0, A0]), _ex("FuzzyXOr", [A0.copy(), B0.copy(), A0.copy()]), 0.0))
     # explicit input permutations (n<=4): results identical bit for bit for order-insensitive operators
     if n >= 2:
         perms = list(itertools.permutations(range(n)))
